@@ -221,7 +221,7 @@ def dfa(R):
     R.ob('C05.dfa', 'reject is absorbing', absorbing, 'REJECT state can be left', func=f, node=node.ast,
          construct='REJECT absorbing')
     R.ob('C05.dfa', 'start state', True, 'reset() start state checked in C05.loop', func=f, node=node.ast)
-    R.dfa_stats = {'states': len(seen), 'transitions': trans, 'exhaustive': True,
+    R.extra['dfa_product'] = {'states': len(seen), 'transitions': trans, 'exhaustive': True,
                    'dfa_index_form': '%d + %d*state + T[byte]' % (L.c0, L.cs)}
     R._c05 = (node, statevar, acc, rej, consts)
 
